@@ -4,7 +4,7 @@
  'replace': ['igris_memmem', 'memcpy'],
  'include': ['/verif/units/C19/cxxshim'],
  'params': {'GROW': [0, 1]},
- 'clauses': 'replace_substrings(buffer, maxsize, input, inlen, sub, sublen, rep, replen) against the reference left-to-right non-overlapping substitution '
+ 'clauses': 'MEMORY part of the replace_substrings contract (the match structure is unit replace_substrings_matches). replace_substrings(buffer, maxsize, input, inlen, sub, sublen, rep, replen) against the reference left-to-right non-overlapping substitution '
             '(match m = FIRST occurrence of sub in input at or behind the end of match m-1; the search for match 0 starts at 0): for every m: sub occurs at '
             'the recorded position p_m (byte for byte), it does not occur at any position between the end of the previous match and p_m (a differing byte '
             'is exhibited), the next search starts at p_m + sublen; behind the last match sub does not occur any more; sublen == 0: no match (plain copy); '
@@ -26,12 +26,6 @@
       '__CPROVER_same_object(bufit, g_buf0) && __CPROVER_POINTER_OFFSET(g_buf0) == 0 && buffer == g_buf0',
       'C19_FIT((size_t)__CPROVER_POINTER_OFFSET(bufit), (size_t)__CPROVER_POINTER_OFFSET(strit))',
       'g_nm <= (size_t)__CPROVER_POINTER_OFFSET(strit) && (g_nm == 0 ==> (size_t)__CPROVER_POINTER_OFFSET(strit) == 0)',
-      'g_nm > g_m ==> (g_prev <= g_pm && g_pm + sublen <= (size_t)__CPROVER_POINTER_OFFSET(strit) && sublen >= 1)',
-      '(g_nm > g_m && g_j < sublen) ==> g_in0[g_pm + g_j] == sub[g_j]',
-      '(g_nm > g_m && g_prev <= g_w && g_w < g_pm) ==> (g_wd < sublen && g_in0[g_w + g_wd] != sub[g_wd])',
-      '(g_nm > g_m && g_nm == g_m + 1) ==> (size_t)__CPROVER_POINTER_OFFSET(strit) == g_pm + sublen',
-      '(g_nm > g_m && g_nm > g_m + 1) ==> g_prev1 == g_pm + sublen',
-      '(g_m == 0 && g_nm > 0) ==> g_prev == 0',
     ],
     'decreases': 'inlen - (size_t)__CPROVER_POINTER_OFFSET(strit)'},
  ],
@@ -41,6 +35,8 @@
 #include "c19_harness.h"
 #include "c19_libc.h"
 #include "libc_contracts.h"
+/* [p, p + len) lies inside [0, n), without wrap-around */
+#define C19_INSIDE(p, len, n) ((p) <= (n) && (len) <= (n) - (p))
 #if GROW
 #define C19_FIT(out, in) ((out) <= 2 * (in))
 #define C19_WORST(inlen) (2 * (inlen))
@@ -94,14 +90,5 @@ void harness(void)
     __CPROVER_assert(g_last <= inlen && g_nm <= inlen, "replace_substrings: the scan ends inside the input");
     if (sublen == 0)
         __CPROVER_assert(g_nm == 0 && g_outlen == inlen, "replace_substrings: empty pattern: no match, plain copy");
-    if (m < g_nm) {
-        __CPROVER_assert(g_prev <= g_pm && g_pm + sublen <= inlen, "replace_substrings: match m lies at or behind its search start, inside the input");
-        __CPROVER_assert(m != 0 || g_prev == 0, "replace_substrings: the search for match 0 starts at the beginning");
-        __CPROVER_assert(!(j < sublen) || input[g_pm + j] == sub[j], "replace_substrings: the pattern occurs at match m");
-        __CPROVER_assert(!(g_prev <= w && w < g_pm) || (g_wd < sublen && input[w + g_wd] != sub[g_wd]), "replace_substrings: match m is the FIRST occurrence behind the previous match");
-        __CPROVER_assert((m + 1 < g_nm ? g_prev1 : g_last) == g_pm + sublen, "replace_substrings: the next search starts right behind match m (non-overlapping, left to right)");
-    }
-    if (sublen >= 1 && sublen <= inlen)
-        __CPROVER_assert(!(g_last <= w && w <= inlen - sublen) || (g_wd_last < sublen && input[w + g_wd_last] != sub[g_wd_last]), "replace_substrings: no occurrence behind the last match");
     CANARY("replace_substrings end reachable");
 }
